@@ -225,10 +225,30 @@ def State.dml (D : Defects) (σ : State) (tid : Nat) (s : Stmt) : State × SOut 
     (({ σ with db := { (({ σ.db with cat := catOf σ.heap v }).stmt D tid 0 s').1 with cat := σ.db.cat } }),
       (({ σ.db with cat := catOf σ.heap v }).stmt D tid 0 s').2.out)
 
+/-- `ThreadContext::name_holder`: the name index's entry for `name` is the one of the last transaction that created
+    the name.  It holds the name against `tid` when its writer is another transaction that `tid`'s snapshot does not
+    see as committed, that has not rolled back, and that has not dropped the relation again itself -/
+def nameHeld (σ : State) (tid : Nat) (name : String) : Bool :=
+  match (σ.db.rows.filter (fun r => r.table == metaName &&
+      (r.versions.getLast?.bind (fun v => v.vals.head?)) == some (Val.text name))).getLast? with
+  | Option.none => false
+  | some r =>
+    match r.versions.getLast? with
+    | Option.none => false
+    | some v =>
+      v.creator != tid && !(σ.db.snapOf tid).cb v.creator && !r.deleters.contains v.creator &&
+        (match σ.db.txns[v.creator]? with
+         | some t => t.status != .aborted
+         | Option.none => false)
+
 /-- a DDL statement of transaction `tid` -/
 def State.ddl (D : Defects) (σ : State) (tid : Nat) (st : DStmt) : State × SOut :=
   let p := planDdl σ.heap σ.db.clock (view D (σ.db.snapOf tid) σ.db.rows) st
   if p.out.isErr then (σ, p.out)
+  else if D.createRefusedWhileNameHeld &&
+      (match st with
+       | .createTable name _ _ => nameHeld σ tid name
+       | _ => false) then (σ, .err .conflict)
   else ({ db := σ.db.write D tid p.effs, heap := addDesc σ.heap σ.db.clock p.desc }, p.out)
 
 /-- one statement of transaction `tid` -/
